@@ -103,6 +103,7 @@ func scenarioC09x(c *hlib.RunCtx) *hlib.Violation {
 	installQuarantine(w, c)
 
 	var created []createdFile
+	steppedBack := false
 	seenCalls := 0
 	frozen := map[string]map[string]uint64{} // old file -> values when a rotation completed
 	inflightAt := map[string]uint64{}        // name -> amount in flight when the latest rotation completed
@@ -141,6 +142,9 @@ func scenarioC09x(c *hlib.RunCtx) *hlib.Violation {
 			}
 		}
 		for path, m := range frozen {
+			if steppedBack {
+				break // after the clock was set back a process may legitimately return to an earlier day's file
+			}
 			v := w.views[path]
 			if v == nil || v.dec == nil {
 				continue
@@ -177,8 +181,11 @@ func scenarioC09x(c *hlib.RunCtx) *hlib.Violation {
 			})
 		}
 		// the clock moves while the increments are in flight
-		kind := t.Draw(6)
+		kind := t.Draw(7)
 		extra := t.Draw(40)
+		if kind == 6 {
+			steppedBack = true
+		}
 		s.Spawn(p.p, "clock", func() {
 			simrt.Yield("clock:wait")
 			end := w.currentEnd(p)
@@ -197,6 +204,17 @@ func scenarioC09x(c *hlib.RunCtx) *hlib.Violation {
 			case 5:
 				target = s.NowT().Add(time.Duration(extra) * time.Minute)
 			}
+			if kind == 6 {
+				// the wall clock is set back (minutes to days); timers keep running
+				back := time.Duration(1+extra) * time.Minute
+				if extra%3 == 0 {
+					back = time.Duration(1+extra%5) * 24 * time.Hour
+				}
+				jumps = append(jumps, "back "+back.String())
+				s.StepBack(back)
+				s.Probe("jump-kind-6")
+				return
+			}
 			if end.IsZero() && kind != 3 && kind != 5 {
 				target = s.NowT().Add(8 * 24 * time.Hour)
 			}
@@ -208,6 +226,19 @@ func scenarioC09x(c *hlib.RunCtx) *hlib.Violation {
 	}
 	// Let the one-minute minimum timer delay elapse, then quiesce.
 	if w.viol == nil {
+		if steppedBack {
+			// run the clock forward to beyond the recorded end again
+			if end := w.currentEnd(p); !end.IsZero() && end.After(s.NowT()) {
+				for i := 0; i < 40 && w.viol == nil && s.NowT().Before(end); i++ {
+					if at, ok := s.NextTimer(); ok && at.Before(end) && at.After(s.NowT()) {
+						s.AdvanceTo(at)
+					} else {
+						s.AdvanceTo(end)
+					}
+					w.finishRun(100000)
+				}
+			}
+		}
 		s.Advance(2 * time.Minute)
 		w.finishRun(100000)
 	}
